@@ -190,8 +190,11 @@ def predicates(ctx, cfg, env, td, B):
             elig = (pt > 0).sum(1)  # [B, O]
             p.check("real_ops_eligible", bool((elig[~pad] >= 1).all()), "a real operation is eligible on no machine")
             if name == "fjsp":
+                lo_e, hi_e = int(cfg.get("min_elig", 1)), int(cfg.get("max_elig", cfg["mas"]))
+                p.check("eligible_count_range", bool(((elig[~pad] >= lo_e) & (elig[~pad] <= hi_e)).all()), f"an operation is eligible on {int(elig[~pad].min())}..{int(elig[~pad].max())} machines, configured range [{lo_e}, {hi_e}]")
                 p.check("padded_ops_empty", bool((elig[pad] == 0).all()), "a padded operation has processing times")
-            p.check("proc_time_range", bool(((pt[pt > 0] >= g.min_processing_time) & (pt[pt > 0] <= g.max_processing_time)).all()), "processing time outside range")
+            lo_p, hi_p = cfg.get("pmin", 1), cfg.get("pmax", 9)  # as configured (envzoo defaults)
+            p.check("proc_time_range", bool(((pt[pt > 0] >= lo_p) & (pt[pt > 0] <= hi_p)).all()), f"processing time outside the configured range [{lo_p}, {hi_p}]")
             if name == "jssp":
                 p.check("jssp_single_machine", bool((elig[~pad] == 1).all()), "a JSSP operation is eligible on several machines")
             nops = (td["end_op_per_job"] - td["start_op_per_job"] + 1)
@@ -212,6 +215,10 @@ def predicates(ctx, cfg, env, td, B):
             p.check("quota", bool((td["to_choose"] == cfg["k"]).all()), "to_choose != configured")
             d = (td["locs"][:, :, None] - td["locs"][:, None]).norm(dim=-1)
             p.check("orig_distances", bool(((td["orig_distances"] - d).abs() < 1e-5).all()) if "orig_distances" in keys else True, "orig_distances is not the pairwise distance matrix")
+            if "distances" in keys and cfg.get("dist") != "normal":
+                # documented: "the current minimum distance from each location to the chosen locations" - with nothing chosen yet it
+                # must not lie below any real distance of that location (it is min-ed with real distances as facilities open)
+                p.check("initial_distances_upper_bound", bool((td["distances"] >= d.max(-1).values - 1e-5).all()), f"initial 'distances' {float(td['distances'].min()):.4f} lies below a real pairwise distance {float(d.max()):.4f}")
     elif name in ("dpp", "mdpp"):
         if need("locs", "probe", "action_mask"):
             am = td["action_mask"].reshape(B, -1)
